@@ -22,6 +22,13 @@ theorem since_snoc_in (fs : List (Nat × Frame)) (base : Nat) (p : Nat × Frame)
     since (fs ++ [p]) base = since fs base ++ [p] := by
   simp [since, List.filter_append, h]
 
+theorem since_total_nil {fs : List (Nat × Frame)} {F total : Nat} (h : FramesOk fs F total) (hF : 0 < F) : since fs total = [] := by
+  unfold since
+  rw [List.filter_eq_nil_iff]
+  intro p hp
+  have := h.2 p hp
+  simp; omega
+
 structure DId (s : Nat) (st : Stream) (cl : Client) : Prop where
   frames : since st.sinkFrames st.sto.base = expected st.cam.run st.sto.base st.F st.sto.ncommit
   total : (cv st.sinkCh).total = st.sto.base + st.sto.ncommit * st.F
